@@ -110,7 +110,9 @@ def gen_case(rng):
                     steps.append('run')
                 steps.append('call:fn%d' % sec)
     steps.append(rng.choice(['stop', 'resolve']))
-    return {'file': text, 'independent': independent, 'pattern': None, 'steps': steps, 'plants': plants, 'nsec': nsec}
+    # the learner's file need not be called answer.py
+    name = rng.choice(['answer.py', 'answer.py', 'main.py', 'student_code.py', 'hw3_solution.py'])
+    return {'file': text, 'name': name, 'independent': independent, 'pattern': None, 'steps': steps, 'plants': plants, 'nsec': nsec}
 
 
 def coq_case(case, res):
